@@ -56,6 +56,9 @@ func (g *GroupWorld) newInstance(asg string, fleet bool) *Inst {
 		if g.w.cfg.ForceFault["never-ready"] == "all" {
 			never = true
 		}
+		if g.cfg.FleetTimeout == "" {
+			never = false // default 1m timeout is a whole number of seconds: a never-ready fleet would tie ticker and deadline
+		}
 		if !(never && g.w.cfg.Faults[FNeverReady] && !g.w.cfg.Calm) {
 			i.ReadyAt = time.Now().Add(delay)
 		} else {
